@@ -77,7 +77,7 @@ class Ctx:
             else:
                 return None
         for n in ast.walk(body[-1].value):
-            if isinstance(n, ast.Call) and not (isinstance(n.func, ast.Name) and n.func.id in ('len', 'int', 'byte2int', 'min', 'max', 'divmod')):
+            if isinstance(n, ast.Call) and not (isinstance(n.func, ast.Name) and n.func.id in ('len', 'int', 'byte2int', 'min', 'max', 'divmod', 'dict', 'list', 'tuple', 'set', 'frozenset', 'bytes', 'bool', 'abs', 'ord', 'range', 'sum', 'sorted')):
                 inner = self.pure_inline_call(n, m.mod, m.cls, depth + 1)
                 if inner is None and not self._pure_lookup_call(n, m.cls):
                     return None
